@@ -34,7 +34,8 @@ def handle (j : Json) : Json :=
                      agentNodes := jnat cj "agent_nodes", serviceNodes := jnat cj "service_nodes",
                      execVnode := match j.getObjVal? "exec_vnode" with
                                   | .ok (.arr a) => some (a.toList.map (fun ch => (asArr ch).map (fun sl => (asNat ((asArr sl).getD 0 Json.null), asNat ((asArr sl).getD 1 Json.null)))))
-                                  | _ => none }
+                                  | _ => none,
+                     envGpus := jnatOpt cj "env_gpus", envGpuIds := jnat cj "env_gpu_ids" }
     match initRM (kindOf (jstr j "kind")) c ((jarr j "lines").map lineOf) ((jarr j "hosts").map nameOf)
             (jnatOpt j "env_cpus") (jnat j "detected") ((jarr j "reach").map asNat) with
     | .error _ => Json.str "error"
